@@ -24,6 +24,9 @@ pub enum Value {
     Argument(usize),
     /// holds SSA index(position in infinite registers)
     Register(VReg),
+    /// Entry of `Function::upindexes` for a variable that is not a local of the enclosing
+    /// function but, in turn, the upvalue of that function with this index.
+    UpValue(usize),
     State(VPtr),
     // idx of the function in the program
     Function(usize),
@@ -316,7 +319,10 @@ pub struct Function {
     pub args: Vec<Argument>,
     // pub argtypes: Vec<TypeNodeId>,
     pub return_type: OnceCell<TypeNodeId>, // TODO: None is the state when the type is not inferred yet.
-    pub upindexes: Vec<Arc<Value>>,
+    /// Variables of the enclosing functions this function refers to, as the function that
+    /// creates the closure names them (its register or argument, or its own upvalue when the
+    /// variable belongs to a function further out), with their types.
+    pub upindexes: Vec<(Arc<Value>, TypeNodeId)>,
     pub upperfn_i: Option<usize>,
     pub body: Vec<Block>,
     /// StateTree skeleton information for this function's state layout
@@ -352,12 +358,12 @@ impl Function {
     pub fn get_argtypes(&self) -> Vec<TypeNodeId> {
         self.args.iter().map(|a| a.1).collect()
     }
-    pub fn get_or_insert_upvalue(&mut self, v: &Arc<Value>) -> usize {
+    pub fn get_or_insert_upvalue(&mut self, v: &Arc<Value>, ty: TypeNodeId) -> usize {
         self.upindexes
             .iter()
-            .position(|vt| v == vt)
+            .position(|(vt, _)| v == vt)
             .unwrap_or_else(|| {
-                self.upindexes.push(v.clone());
+                self.upindexes.push((v.clone(), ty));
                 self.upindexes.len() - 1
             })
     }
